@@ -319,13 +319,19 @@ where
     /// ```
     pub fn disconnect(&self, other: &K) -> Result<E, Error> {
         match self.find_outbound(other) {
-            Some(other) => match self.inner.2.write().unwrap().remove_outbound(other.key()) {
-                Ok(edge) => {
-                    other.inner.2.write().unwrap().remove_inbound(self.key())?;
-                    Ok(edge)
+            Some(other) => {
+                // The write lock of this node must be released before the
+                // other node is locked: `other` may be `self` (self-loop), and
+                // holding both locks can deadlock against the reverse call.
+                let removed = self.inner.2.write().unwrap().remove_outbound(other.key());
+                match removed {
+                    Ok(edge) => {
+                        other.inner.2.write().unwrap().remove_inbound(self.key())?;
+                        Ok(edge)
+                    }
+                    Err(_) => Err(Error::EdgeNotFound),
                 }
-                Err(_) => Err(Error::EdgeNotFound),
-            },
+            }
             None => Err(Error::EdgeNotFound),
         }
     }
